@@ -28,6 +28,9 @@ type Case struct {
 	Data any      `json:"data"`
 	Rep  string   `json:"rep"` // simple gen typed struct wrapped
 	Max  int      `json:"max,omitempty"`
+	// Diff: the expected selection is what Get gives on the simple form of the data (for the
+	// operators whose meaning no document states and the reference does not model: in, empty)
+	Diff bool `json:"diff,omitempty"`
 }
 
 func TestMain(m *testing.M) {
@@ -305,6 +308,15 @@ func Run(cs Case, c *vrt.Ctx) {
 	res := jpx.Eval(cs.Path, data)
 	refWant := canonList(valuesOf(res.Locs))
 	x := cs.Path.Build()
+	if cs.Diff {
+		var onSimple []any
+		if pv, _ := vrt.Catch(func() { onSimple = x.Get(canon.Copy(data)) }); pv != nil {
+			c.DontCare("get-panics-on-simple-data(C12)")
+			return
+		}
+		refWant = canonList(onSimple)
+		c.Class("differential-against-simple")
+	}
 	desc := fmt.Sprintf("path %s (%s) rep=%s data %s", cs.Path, x.String(), cs.Rep, canon.String(data, canon.Value))
 	in := represent(data, cs.Rep)
 	c.Class("rep:" + cs.Rep)
@@ -825,6 +837,76 @@ func TestEnumSlices(t *testing.T) {
 	}
 	suite.AddExtra("slice_matrix_cases", int64(n))
 	suite.Extra("slice_matrix_exhaustive_over", fmt.Sprintf("arrays of 0..%d elements x slices with bounds %d..%d or left out and steps -2..3 or left out x {last, child, index, wildcard after it} x 5 representations", maxLen, lo, hi))
+}
+
+// TestEnumFilterOps: filters whose operators read containers taken from the data (in with a list
+// from the element or from the root, empty on arrays, maps and strings, length / count) on all five
+// representations: what a filter selects does not depend on how the data is held.
+func TestEnumFilterOps(t *testing.T) {
+	m := func(kv ...any) map[string]any {
+		out := map[string]any{}
+		for i := 0; i+1 < len(kv); i += 2 {
+			out[kv[i].(string)] = kv[i+1]
+		}
+		return out
+	}
+	at := func(keys ...string) *jpx.Eq {
+		p := jpx.Path{{K: "at"}}
+		for _, k := range keys {
+			p = append(p, jpx.Frag{K: "child", Key: k})
+		}
+		return &jpx.Eq{Op: "get", P: p}
+	}
+	rootp := func(keys ...string) *jpx.Eq {
+		p := jpx.Path{{K: "root"}}
+		for _, k := range keys {
+			p = append(p, jpx.Frag{K: "child", Key: k})
+		}
+		return &jpx.Eq{Op: "get", P: p}
+	}
+	tru := &jpx.Eq{Op: "const", CK: "bool", CB: true}
+	fal := &jpx.Eq{Op: "const", CK: "bool", CB: false}
+	clist := &jpx.Eq{Op: "const", CK: "list", CL: []jpx.Eq{{Op: "const", CK: "int", CI: 2}, {Op: "const", CK: "string", CS: "b"}, {Op: "const", CK: "float", CF: 3}}}
+	scripts := []*jpx.Eq{
+		{Op: "in", L: at("x"), R: at("l")}, {Op: "in", L: at("x"), R: rootp("pool")}, {Op: "in", L: at("x"), R: clist}, {Op: "in", L: at("s"), R: at("l")},
+		{Op: "not", L: &jpx.Eq{Op: "in", L: at("x"), R: at("l")}},
+		{Op: "empty", L: at("l"), R: tru}, {Op: "empty", L: at("l"), R: fal}, {Op: "empty", L: at("m"), R: tru}, {Op: "empty", L: at("m"), R: fal},
+		{Op: "empty", L: at("s"), R: tru}, {Op: "empty", L: at("x"), R: tru}, {Op: "empty", L: at("none"), R: fal},
+		{Op: "eq", L: at("l"), R: at("l2")}, {Op: "neq", L: at("m"), R: at("l")},
+	}
+	elems := []any{
+		m("x", int64(3), "l", []any{int64(1), int64(2), int64(3)}, "m", m(), "s", "", "l2", []any{int64(1), int64(2), int64(3)}),
+		m("x", int64(4), "l", []any{int64(1), int64(2)}, "m", m("k", int64(1)), "s", "b", "l2", []any{}),
+		m("x", 2.0, "l", []any{int64(1), int64(2), "b"}, "m", m(), "s", "b"),
+		m("x", "b", "l", []any{}, "m", m("k", nil), "s", "zz"),
+		m("x", nil, "l", []any{nil, true}, "s", "b"),
+		m("x", true, "l", []any{1.5, true}, "m", m()),
+	}
+	n := 0
+	for _, wrap := range []string{"array", "map"} {
+		var data any
+		head := jpx.Path{{K: "root"}, {K: "child", Key: "items"}}
+		if wrap == "array" {
+			data = m("items", elems, "pool", []any{int64(4), "b", 2.0, nil})
+		} else {
+			im := m()
+			for i, e := range elems {
+				im[fmt.Sprintf("e%d", i)] = e
+			}
+			data = m("items", im, "pool", []any{int64(4), "b", 2.0, nil})
+		}
+		enc := wx.Enc(data)
+		for _, sc := range scripts {
+			for _, tail := range [][]jpx.Frag{nil, {{K: "child", Key: "x"}}} {
+				p := append(append(append(jpx.Path{}, head...), jpx.Frag{K: "filter", F: sc}), tail...)
+				for _, rep := range []string{"simple", "gen", "typed", "struct", "wrapped"} {
+					vrt.Eval(suite, "agree", Case{Path: p, Data: enc, Rep: rep, Max: 1 + n%3, Diff: true}, Run)
+					n++
+				}
+			}
+		}
+	}
+	suite.AddExtra("filter_operator_matrix_cases", int64(n))
 }
 
 func TestPropRandom(t *testing.T) {
